@@ -52,7 +52,7 @@ fn main()
 			emit(format!("S {}", hex_bytes(&vec![0u8; 252])), &mut out);
 			emit(format!("S {}", hex_bytes(&vec![0xFFu8; 252])), &mut out);
 			// strings longer than any internal block one might fold by (4 KiB pages, 64 KiB), whole and in pieces
-			for len in [4095usize, 4096, 4097, 8192, 9000, 65537]
+			for len in [4095usize, 4096, 4097, 8192, 9000, 65537, 1 << 20]
 			{
 				let data = rng.bytes(len);
 				emit(format!("S {}", hex_bytes(&data)), &mut out);
